@@ -807,3 +807,58 @@ func storesOfField(info *types.Info, body ast.Node, fld *types.Var) []fieldStore
 	walk(body)
 	return out
 }
+
+// resultSite is a place where the results of a function are decided: a `return a, b` with the expressions, or - when
+// a return only forwards locals - a tuple assignment `x, y = a, b` to exactly those locals (the form the normaliser
+// gives to the returns of an inlined helper).
+type resultSite struct {
+	Node *eng.GNode
+	Vals []ast.Expr
+}
+
+func resultSites(g *eng.Graph, info *types.Info, body ast.Node) []resultSite {
+	var out []resultSite
+	for _, n := range g.Nodes {
+		ret, ok := n.Node.(*ast.ReturnStmt)
+		if !ok || len(ret.Results) == 0 {
+			continue
+		}
+		var locals []types.Object
+		for _, r := range ret.Results {
+			id, isId := ast.Unparen(r).(*ast.Ident)
+			if !isId {
+				locals = nil
+				break
+			}
+			v, isV := info.ObjectOf(id).(*types.Var)
+			if !isV || v.IsField() || !isDeclaredIn(info, body, v) {
+				locals = nil
+				break
+			}
+			locals = append(locals, v)
+		}
+		forwarded := false
+		if locals != nil && len(locals) > 1 {
+			for _, m := range g.Nodes {
+				as, isA := m.Node.(*ast.AssignStmt)
+				if !isA || len(as.Lhs) != len(locals) || len(as.Rhs) != len(locals) {
+					continue
+				}
+				same := true
+				for i, l := range as.Lhs {
+					if eng.SelObj(info, l) != locals[i] {
+						same = false
+					}
+				}
+				if same {
+					forwarded = true
+					out = append(out, resultSite{m, as.Rhs})
+				}
+			}
+		}
+		if !forwarded {
+			out = append(out, resultSite{n, ret.Results})
+		}
+	}
+	return out
+}
